@@ -2,11 +2,12 @@ package p2psync
 
 // Registry lists the harness entry points of this package for native replay.
 var Registry = map[string]func([]int64){
-	"HarnessNextCheckpoint":    func(a []int64) { HarnessNextCheckpoint(int(a[0])) },
-	"HarnessHeadersBatch":      func(a []int64) { HarnessHeadersBatch(int(a[0]), int(a[1])) },
-	"HarnessStartSync":         func(a []int64) { HarnessStartSync(int(a[0]), int(a[1]), int(a[2])) },
-	"HarnessInvAfterSync":      func(a []int64) { HarnessInvAfterSync(int(a[0]), int(a[1])) },
-	"HarnessSyncPeerLost":      func(a []int64) { HarnessSyncPeerLost(int(a[0]), int(a[1])) },
-	"HarnessSyncInvariantStep": func(a []int64) { HarnessSyncInvariantStep(int(a[0]), int(a[1]), int(a[2])) },
-	"HarnessStalledSyncPeer":   func(a []int64) { HarnessStalledSyncPeer(int(a[0]), int(a[1])) },
+	"HarnessNextCheckpoint":     func(a []int64) { HarnessNextCheckpoint(int(a[0])) },
+	"HarnessHeadersBatch":       func(a []int64) { HarnessHeadersBatch(int(a[0]), int(a[1])) },
+	"HarnessStartSync":          func(a []int64) { HarnessStartSync(int(a[0]), int(a[1]), int(a[2])) },
+	"HarnessInvAfterSync":       func(a []int64) { HarnessInvAfterSync(int(a[0]), int(a[1])) },
+	"HarnessSyncPeerLost":       func(a []int64) { HarnessSyncPeerLost(int(a[0]), int(a[1])) },
+	"HarnessSyncInvariantStep":  func(a []int64) { HarnessSyncInvariantStep(int(a[0]), int(a[1]), int(a[2])) },
+	"HarnessInvWithoutSyncPeer": func(a []int64) { HarnessInvWithoutSyncPeer(int(a[0]), int(a[1])) },
+	"HarnessStalledSyncPeer":    func(a []int64) { HarnessStalledSyncPeer(int(a[0]), int(a[1])) },
 }
